@@ -50,10 +50,10 @@ func (parser *Parser) nextLineBytes() ([]byte, error) {
 	readByte := make([]byte, 1)
 
 	// Gets a message bytes.
-	n, err := parser.reader.Read(readByte)
+	n, err := parser.read(readByte)
 	for n == 1 && err == nil && readByte[0] != cr {
 		readBytes.WriteByte(readByte[0])
-		n, err = parser.reader.Read(readByte)
+		n, err = parser.read(readByte)
 	}
 	if err != nil {
 		if errors.Is(err, io.EOF) {
@@ -63,7 +63,7 @@ func (parser *Parser) nextLineBytes() ([]byte, error) {
 	}
 
 	// Skips a next line field.
-	parser.reader.Read(readByte)
+	parser.read(readByte)
 
 	// Returns an empty byte array instead of nil
 	lenBytes := readBytes.Bytes()
@@ -86,7 +86,7 @@ func (parser *Parser) nextLengthBytes(num int) ([]byte, error) {
 		if totalRead == len(buf) {
 			buf = append(buf, make([]byte, min(n-len(buf), len(buf)))...)
 		}
-		read, err := parser.reader.Read(buf[totalRead:])
+		read, err := parser.read(buf[totalRead:])
 		if err != nil {
 			if err == io.EOF {
 				if totalRead+read < n {
@@ -144,11 +144,27 @@ func (parser *Parser) nextArrayMessage() (*Message, error) {
 	return msg, nil
 }
 
+// maxEmptyReads is the number of consecutive reads without data and without an error
+// after which the parser gives up with io.ErrNoProgress, like bufio.Reader.
+const maxEmptyReads = 100
+
+// read reads from the underlying reader. A read which returns neither data nor an error
+// means that nothing happened (see io.Reader), so it is tried again.
+func (parser *Parser) read(p []byte) (int, error) {
+	for i := 0; i < maxEmptyReads; i++ {
+		n, err := parser.reader.Read(p)
+		if n != 0 || err != nil || len(p) == 0 {
+			return n, err
+		}
+	}
+	return 0, io.ErrNoProgress
+}
+
 // Next returns a next message.
 func (parser *Parser) Next() (*Message, error) {
 	// Parses a first type byte.
 	typeByte := make([]byte, 1)
-	_, err := parser.reader.Read(typeByte)
+	_, err := parser.read(typeByte)
 	if err != nil {
 		if errors.Is(err, io.EOF) {
 			return nil, nil
